@@ -52,6 +52,7 @@ OboClasses == {"none", "valid", "validroot", "bad", "lvl"}   \* lvl = extra.auth
 TopicClasses == {"me", "fnd", "grp", "nogrp", "usr", "nousr", "sys", "empty", "bad", "bad3", "bad6", "new"}
    \* grp = existing group g1; nogrp = well-formed name of no topic; usr = carol's user id; nousr = "usr" + undecodable;
    \* bad = "zz", bad3 = "grp", bad6 = "zzzzzz"; new = "new" + unique suffix
+OboTopics == {"me", "grp", "usr", "bad"}   \* as-user resolution precedes (and is independent of) topic-name expansion
 Whats == [sub |-> {"none"}, leave |-> {"none", "unsub"}, pub |-> {"forged"},
           get |-> {"desc", "sub", "data", "bad"}, set |-> {"desc", "tags", "none"},
           del |-> {"msg", "topic", "user", "bad"}, note |-> {"read", "recv", "kp", "call", "bad"}]
@@ -65,7 +66,8 @@ AllMsgs ==
                                             st \in {"T", "F"}, o \in {"none", "lvl"}}
   \cup {MAcc(u, "F", sch, tmp, st, "none") : u \in {"self", "other", "bad"}, sch \in {"basic", "none"},
                                            tmp \in {"none", "tokR", "tokW", "code", "unknown"}, st \in {"T", "F"}}
-  \cup UNION {{MTop(k, t, w, o) : t \in TopicClasses, w \in Whats[k], o \in OboClasses} : k \in TopicKinds}
+  \cup UNION {{MTop(k, t, w, "none") : t \in TopicClasses, w \in Whats[k]} : k \in TopicKinds}
+  \cup UNION {{MTop(k, t, w, o) : t \in OboTopics, w \in Whats[k], o \in OboClasses \ {"none"}} : k \in TopicKinds}
 
 \* ------------------------------------------------------------------ environment
 Acct == [alice |-> [state |-> "ok",   lvl |-> "auth", cred |-> TRUE,  expired |-> FALSE],
@@ -92,7 +94,8 @@ Tok(sc) == CASE sc = "right"     -> [u |-> "alice", l |-> "auth", validated |-> 
 \* ------------------------------------------------------------------ session state
 \* ver: "0" (no handshake) | "A" | "B";  uid: "" | "alice" | "root" | "new";  lvl: "" | "auth" | "root"
 \* att: set of [t |-> abstract topic, u |-> the user the session attached as];  crashed: the server process is gone
-InitSt == [ver |-> "0", uid |-> "", lvl |-> "", att |-> {}, crashed |-> FALSE]
+\* rst: a password-reset code for carol's credential has been issued (the `code` authenticator refuses a second one: 409)
+InitSt == [ver |-> "0", uid |-> "", lvl |-> "", att |-> {}, rst |-> FALSE, crashed |-> FALSE]
 AttTopics(st) == {a.t : a \in st.att}
 AttAs(st, r) == CHOOSE a \in st.att : a.t = r
 
@@ -142,7 +145,9 @@ Login(st, m) ==
   IF m.sch = "reset"
   THEN CASE m.sec = "malformed"   -> Err(400, st)
          [] m.sec = "unsupported" -> Err(501, st)
-         [] OTHER                 -> Err(301, st)                  \* InfoAuthReset; never changes the session
+         [] m.sec = "unknown"     -> Err(301, st)                  \* no such credential: reported as success
+         [] st.rst                -> Err(409, st)                  \* as built: a reset code for this credential already exists
+         [] OTHER                 -> {Out(Rep(301, TRUE), [st EXCEPT !.rst = TRUE])}   \* InfoAuthReset; the SESSION never changes
   ELSE IF st.uid # "" THEN Err(409, st)                            \* already authenticated
   ELSE IF m.sch = "unknown" THEN Err(401, st)
   ELSE LET rec == IF m.sch = "basic" THEN AuthBasic(m.sec) ELSE AuthToken(m.sec) IN
